@@ -223,6 +223,90 @@ def read_from_od(kind, source):
     sx.reach("from-od")
 
 
+class _WholeDevice(PdoDevice):
+    """the strict PDO objects plus ordinary objects that accept any write (logged)"""
+
+    def __init__(self, *a, **k):
+        PdoDevice.__init__(self, *a, **k)
+        self.other = []
+
+    def download(self, index, sub, data, force_segment=False):
+        if index in (self.ci, self.mi):
+            return PdoDevice.download(self, index, sub, data, force_segment)
+        self.other.append((index, sub, sx.le_int(sx.items(data))))
+
+
+def load_configuration(kind, pdo_no):
+    """RemoteNode.load_configuration: the PDO objects go through read(from_od)/save() (safe order), every other
+    writable object with a DCF value is downloaded, and nothing touches the PDO objects afterwards."""
+    subs = (1, 2, 3, 5, 6)
+    od, ci, mi = _od(kind, pdo_no, subs)
+    cob = sx.fresh_int("cob", 1, 0x7FF)
+    enabled = bool(sx.choice(2, "enabled"))
+    tt = sx.fresh_int("tt", 0, 255)
+    com, mp = od[ci], od[mi]
+    com[1].value = cob | (0 if enabled else VALID_BIT)
+    com[2].value = tt
+    com[3].value, com[5].value, com[6].value = 11, 22, 3
+    mp[0].value = 2
+    mp[1].value = (POOL[0][0] << 16) | 16
+    mp[2].value = (POOL[1][0] << 16) | 8
+    pv = sx.fresh_int("pv", 0, 0xFF)
+    od[0x2100][1].value = pv
+    od[C.TYPE_INDEX[0x07]].value = 0x12345678
+    netmod = sx.mod("canopen.network")
+    E = sx.mod("canopen.sdo.exceptions")
+    net = netmod.Network()
+    net.send_message = lambda *a, **k: None
+    node = sx.mod("canopen.node.remote").RemoteNode(3, od)
+    net.add_node(node)
+    dev = _WholeDevice(ci, mi, subs)
+    dev.abort_cls = E.SdoAbortedError
+    dev.com[1] = 0x333                      # the device starts enabled with another mapping
+    dev.com[2] = 1
+    dev.map[0] = 1
+    dev.map[1] = (POOL[2][0] << 16) | 8
+    node.sdo.upload = dev.upload
+    node.sdo.download = dev.download
+    tag = "C09/load-configuration"
+    try:
+        node.load_configuration()
+    except Exception as e:
+        sx.observe("exc", C.exc_name(e))
+        sx.observe("refused", [r[3] for r in dev.refused])
+        sx.fail("load_configuration raised %s" % C.exc_name(e), tag + "/raises")
+        return
+    sx.observe("log", list(dev.log))
+    sx.prove(len(dev.refused) == 0, "a strict device refused a write", tag + "/refused-by-device")
+    log = dev.log
+    sx.prove(len(log) > 0 and log[0][0] == ci and log[0][1] == 1, "first PDO write is the invalidation", tag + "/first")
+    if log:
+        sx.prove((log[0][2] & VALID_BIT) != 0, "first PDO write invalidates", tag + "/first-value")
+    # count zeroed before entries, set after them
+    mlog = [(s_, v) for i, s_, v in log if i == mi]
+    sx.prove(len(mlog) >= 4 and mlog[0] == (0, 0) and mlog[-1][0] == 0 and (mlog[-1][1] == 2) is not False,
+             "mapping count zeroed first and set last", tag + "/map-order")
+    # validated last (only when enabled) and nothing written to the PDO objects afterwards
+    if enabled:
+        sx.prove(log[-1][0] == ci and log[-1][1] == 1, "PDO validated last", tag + "/validated-last")
+        sx.prove(log[-1][2] == cob, "final COB-ID word", tag + "/final-cob")
+        sx.prove(bool(dev.valid()), "PDO valid at the end", tag + "/valid")
+    else:
+        sx.prove(not bool(dev.valid()), "disabled PDO must stay invalid", tag + "/stays-invalid")
+    ncob = len([1 for i, s_, v in log if i == ci and s_ == 1])
+    sx.prove(ncob == (2 if enabled else 1), "COB-ID written once to invalidate and once to validate", tag + "/cob-writes")
+    sx.prove(dev.map[0] == 2 and dev.map[1] == mp[1].value and dev.map[2] == mp[2].value, "mapping on the device",
+             tag + "/mapping")
+    sx.prove((dev.com[2] == tt), "transmission type on the device", tag + "/trans-type")
+    # every other object with a value was downloaded, none of them is a PDO object
+    sx.prove(sx.any_([(i == 0x2100) & (s_ == 1) & (v == pv) for i, s_, v in dev.other]) is not False and
+             any(i == C.TYPE_INDEX[0x07] for i, s_, v in dev.other), "ordinary objects downloaded", tag + "/others")
+    sx.prove(sx.any_([(i == 0x2100) & (s_ == 1) & (v == pv) for i, s_, v in dev.other]), "member value", tag + "/member")
+    sx.prove(all(not (0x1400 <= i < 0x1C00) for i, s_, v in dev.other), "PDO object written by the generic loop",
+             tag + "/pdo-by-generic-loop")
+    sx.reach("load-configuration")
+
+
 def predefined():
     """default COB-IDs of the predefined connection set"""
     od = C.typed_od(with_pdo=False)
@@ -259,6 +343,9 @@ def jobs(tier):
         for src in ("value", "default"):
             out.append(dict(func="read_from_od", params=dict(kind=kind, source=src)))
     out.append(dict(func="predefined", params={}))
+    for kind in ("rpdo", "tpdo"):
+        for pdo_no in ((1, 512) if q else (1, 2, 256, 257, 511, 512)):
+            out.append(dict(func="load_configuration", params=dict(kind=kind, pdo_no=pdo_no)))
     return out
 
 
@@ -278,7 +365,7 @@ META = dict(
                     "COB-ID bit 29"],
     assumptions=["strict device rules from CiA 301 7.5.2.35/36 (mapping procedure)"],
     stubs=["struct", "SdoClient.upload/download replaced on the instance", "Network.send_message no-op", "logging"],
-    required_reach=["save-enabled", "save-disabled", "read-back", "event-driven", "from-od", "predefined"],
+    required_reach=["save-enabled", "save-disabled", "read-back", "event-driven", "from-od", "predefined", "load-configuration"],
     limits=dict(quick=dict(max_decisions=20000), thorough=dict(max_decisions=50000)),
     validate_every=dict(quick=3, thorough=5),
     max_validate=dict(quick=30, thorough=30),
